@@ -60,8 +60,13 @@ func quotes(ss []string) string {
 }
 
 func sortedQuotes(ss []string) string {
-	sort.Strings(ss)
-	return quotes(ss)
+	// Sort a copy. The argument may be a slice shared with other goroutines checking other files in
+	// parallel such as an element of AllWebhookTypes or Config.ConfigVariables. Sorting it in place
+	// causes a data race and modifies the shared table.
+	sorted := make([]string, len(ss))
+	copy(sorted, ss)
+	sort.Strings(sorted)
+	return quotes(sorted)
 }
 
 func quotesAll(sss ...[]string) string {
